@@ -99,8 +99,9 @@ def syn_traces(ctx, sources):
     can2['toks'] = can2['toks'][:-1]
     verdicts = ctx.validate('TraceSyn', traces + [can, can2])
     ctx.traces -= 2
-    ctx.canary(verdicts[-2][0] != 'ok', 'derivation event corrupted')
-    ctx.canary(verdicts[-1][0] != 'ok', 'last token dropped')
+    if verdicts[0][0] == 'ok':
+        ctx.canary(verdicts[-2][0] != 'ok', 'derivation event corrupted')
+        ctx.canary(verdicts[-1][0] != 'ok', 'last token dropped')
     for (name, src), v in zip(meta, verdicts):
         if v[0] == 'ok':
             ctx.nontrivial += 1
